@@ -114,7 +114,7 @@ RenderDec(st, op) == IF "w" \in DOMAIN op THEN st.wr[op.w].dec ELSE DecOf(op)
 RenderHtml(st, op) == IF "w" \in DOMAIN op THEN st.wr[op.w].html ELSE NoHtml
 
 \* a render runs one pass of render-time callbacks on the core table
-DoRender(st, op, fired) == Fire(st, RenderTbl(st, op), 0, fired)
+DoRender(st, op, fired) == Fire([st EXCEPT !.rendered = TRUE], RenderTbl(st, op), 0, fired)
 
 SlotsOfAll(st, op) ==
   IF op.op \in {"render", "renderfault"} THEN SlotsRenderPass(st, RenderTbl(st, op)) ELSE SlotsOf(st, op)
@@ -144,7 +144,16 @@ CellSlots(c) == Max2(Len(c.lines), CellHeight(c))
 
 \* display width used to lay out line j of a cell: a single-line item that declares
 \* its width is laid out as exactly that wide; otherwise the line's own measure
-LineW(c, j) == IF Len(c.lines) = 1 /\ HasCap(c.snap, "Width") THEN CellWidth(c) ELSE c.lines[j][2]
+RECURSIVE DeclaresWidth(_)
+DeclaresWidth(d) == IF d.k = "cell" THEN DeclaresWidth(d.inner) ELSE HasCap(d, "Width")
+LineW(c, j) == IF Len(c.lines) = 1 /\ DeclaresWidth(c.snap) THEN CellWidth(c) ELSE c.lines[j][2]
+
+\* is the library's width measure additive for this text line between spaces (logged by the driver)?
+\* Where it is not (a combining mark with a width of its own, an emoji modifier, a prepended format
+\* character at the edge of a cell), no layout can make the whole output line measure the sum of its
+\* slots; the slot strings are then still checked exactly, the whole-line measure is not.
+SafeLine(l) == Len(l) < 3 \/ l[3] = 1
+AllSafe(k) == k[1] = "rule" \/ \A i \in DOMAIN k[2] : k[3] > Len(k[2][i].lines) \/ SafeLine(k[2][i].lines[k[3]])
 
 ColW(st, T, i) ==
   SetMax({0}
@@ -223,7 +232,7 @@ TextBad(st, t, dec, res) ==
               \/ ~MatchPieces(L[k][1],
                               IF kinds[k][1] = "rule" THEN RulePieces(st, T)
                               ELSE ContentPieces(st, T, kinds[k][2], kinds[k][3], boxless), G)
-              \/ L[k][2] # LineWidth(st, T, kinds[k], boxless)}}
+              \/ (AllSafe(kinds[k]) /\ L[k][2] # LineWidth(st, T, kinds[k], boxless))}}
 
 \* a complete decoration: boxless, or every drawing glyph present
 DecComplete(dec) == dec.boxless = 1 \/ \A f \in DOMAIN dec.g : dec.g[f] # ""
@@ -751,13 +760,13 @@ BadRes(s, ns, op, res) ==
   \cup BadResMore(s, ns, op, res)
 
 \* re-setting keys must not grow an owner's stored state: the chain of a cell is
-\* never longer than its keys plus the renderers' three private measuring keys
-\* (text: dimensions, lines; markdown: width), which any render may have set
+\* never longer than its keys -- plus, once a renderer has run, the renderers' three private
+\* measuring keys (text: dimensions, lines; markdown: width) which that render may have set
 AgreeChain(ns, chain) ==
   \A i \in DOMAIN chain :
     LET e == chain[i] IN
       /\ OwnerExists(ns, e[1], e[2], e[3])      \* a cell the model does not have is a mismatch, not an error
-      /\ e[4] <= Cardinality(DOMAIN PropsOf(ns, e[1], e[2], e[3])) + 3
+      /\ e[4] <= Cardinality(DOMAIN PropsOf(ns, e[1], e[2], e[3])) + (IF ns.rendered THEN 3 ELSE 0)
 
 AgreeMore(s, ns, op, f, v) == TRUE
 
